@@ -43,7 +43,7 @@ class GW:
         os.chmod(self.home, 0o755)
         self.sock = os.path.join(self.h.dir, "gate")
 
-    def execute(self, kind, msgs, prefix):
+    def execute(self, kind, msgs, prefix, fault=None):
         """kind = 'mbox' | 'maildir'. Returns dict(decisions, steps, verdict, inconclusive)"""
         home = self.home
         for root, dirs, files in os.walk(home, topdown=False):
@@ -70,6 +70,10 @@ class GW:
                 mf = os.path.join(self.h.dir, "msg%d" % i)
                 open(mf, "wb").write(m)
                 env = self.h.env(role="d%d" % i, uid=4242, trace=False, VSHIM_GATE=self.sock, VSHIM_GATE_ONLY=only)
+                if fault and fault[0] == i:
+                    # this delivery's k-th write()/fsync() to the mailbox fails: it must take back exactly its own bytes, whatever the others did
+                    env["VSHIM_FAULT"] = "d%d:%s:%d:%s" % (i, fault[1], fault[2], fault[3])
+                    env["VSHIM_FAULT_GEN"] = "0"
                 p = subprocess.Popen([self.tree.path("qmail-local"), "--", "user", home, "user", "", "", "host.example", "s%d@sender.example" % i, dd],
                                      stdin=open(mf, "rb"), stdout=subprocess.DEVNULL, stderr=subprocess.DEVNULL, env=env, cwd="/", start_new_session=True)
                 procs.append(p)
@@ -107,7 +111,18 @@ class GW:
                     os.system("for p in $(pgrep -x qmail-local); do echo PID $p; cat /proc/$p/wchan; echo; grep -i 'state\\|ppid' /proc/$p/status; ls -l /proc/$p/fd | tail -6; done")
                     print([(x.key, x.pid, x.state, x.msg) for x in sched.procs])
                 raise qworld.Inconclusive("a delivery did not exit after its last gated step")
-            if any(rc != 0 for rc in rcs):
+            okset = [i for i in range(len(msgs)) if not (fault and fault[0] == i)]
+            if fault and (rcs[fault[0]] != 111 or any(rcs[i] != 0 for i in okset)):
+                out["verdict"] = "deliveries exited %r; documented: 111 for the one whose %s failed, 0 for the others" % (rcs, fault[1])
+            elif fault and kind == "mbox":
+                data = open(os.path.join(home, "mbox"), "rb").read()
+                got = mboxrd_read(data) if data.startswith(before) else None
+                want = sorted(expected_entry(i, msgs[i]) for i in okset)
+                if got is None or sorted(got[1:]) != want:
+                    out["verdict"] = ("a delivery whose %s failed (exit 111) rolled back more or less than its own entry: the mbox reader returns %s, "
+                                      "expected the old message and the %d successful deliveries intact (file %d bytes)" % (
+                                          fault[1], "garbage" if got is None else [len(x) for x in got], len(okset), len(data)))
+            elif any(rc != 0 for rc in rcs):
                 out["verdict"] = "concurrent deliveries exited %r (expected all 0)" % rcs
             elif kind == "mbox":
                 data = open(os.path.join(home, "mbox"), "rb").read()
@@ -149,11 +164,11 @@ def expected_entry(i, m):
     return b"Return-Path: <s%d@sender.example>\nDelivered-To: user@host.example\n" % i + body
 
 
-def dfs(gw, kind, msgs, stats, budget, cls):
+def dfs(gw, kind, msgs, stats, budget, cls, fault=None):
     prefix = []
     t_end = time.time() + budget
     while True:
-        out = gw.execute(kind, msgs, prefix)
+        out = gw.execute(kind, msgs, prefix, fault)
         if out["inconclusive"]:
             stats.inconclusive += 1
             return False, None
@@ -164,7 +179,7 @@ def dfs(gw, kind, msgs, stats, budget, cls):
                              "schedule": " ".join("%s.%s%s" % (r, c, "" if k == "REQ" else "*") for r, c, k in out["steps"])},
                    nontrivial=inter, classes=[cls], key=key)
         if out["verdict"]:
-            return False, (out["verdict"], {"kind": kind, "msgs": [vlib.jsonable(m) for m in msgs], "tape": [c for _, c in out["decisions"]]})
+            return False, (out["verdict"], {"kind": kind, "msgs": [vlib.jsonable(m) for m in msgs], "tape": [c for _, c in out["decisions"]], "fault": fault})
         dec = out["decisions"]
         i = len(dec) - 1
         while i >= 0 and dec[i][1] + 1 >= dec[i][0]:
@@ -177,10 +192,11 @@ def dfs(gw, kind, msgs, stats, budget, cls):
 
 
 def worker(job):
-    tree, wid, kind, msgs, budget, cls = job
+    tree, wid, kind, msgs, budget, cls = job[:6]
+    fault = job[6] if len(job) > 6 else None
     stats = vlib.Stats()
     gw = GW(tree, wid)
-    ok, viol = dfs(gw, kind, msgs, stats, budget, cls)
+    ok, viol = dfs(gw, kind, msgs, stats, budget, cls, fault)
     stats.extra["gate_complete_" + cls] = 1 if ok else 0
     if viol:
         stats.violations.append(("C12 gate: " + viol[0], viol[1]))
@@ -195,6 +211,10 @@ def run_gate(ctx, tree):
         (tree, "m2b", "mbox", [big(65, 2300) + b"From me\n", b"From x\n" + big(66, 1100) + b"tail without newline"], ctx.n(25, 300), "mbox_2_from_lines"),
         (tree, "m2c", "mbox", [big(65, 200), big(66, 3000)], ctx.n(20, 300), "mbox_small_big"),
         (tree, "m3", "mbox", [big(65, 1300), big(66, 1300), big(67, 1300)], ctx.n(25, 600), "mbox_3x1300"),
+        # one of two concurrent mbox deliveries fails at a write or at its fsync: it takes back exactly its own entry under every interleaving
+        (tree, "f2a", "mbox", [big(65, 1500), big(66, 1500)], ctx.n(20, 300), "mbox_2_first_write_fails", (0, "write", 0, "28")),
+        (tree, "f2b", "mbox", [big(65, 1500), big(66, 1500)], ctx.n(20, 300), "mbox_2_second_write_fails", (1, "write", 1, "28")),
+        (tree, "f2c", "mbox", [big(65, 1500), big(66, 300)], ctx.n(20, 300), "mbox_2_fsync_fails", (0, "fsync", 0, "5")),
         (tree, "d2", "maildir", [big(65, 1500), big(66, 100)], ctx.n(20, 300), "maildir_2"),
         (tree, "d3", "maildir", [big(65, 100), big(66, 100), big(67, 100)], ctx.n(20, 600), "maildir_3"),
     ]
@@ -206,7 +226,7 @@ def run_gate(ctx, tree):
 def replay_gate(tree, sc):
     gw = GW(tree, "replay")
     msgs = [vlib.unjson(m) for m in sc["msgs"]]
-    outs = [gw.execute(sc["kind"], msgs, sc["tape"]) for _ in range(3)]
+    outs = [gw.execute(sc["kind"], msgs, sc["tape"], tuple(sc["fault"]) if sc.get("fault") else None) for _ in range(3)]
     if all(o["verdict"] for o in outs):
         return [outs[0]["verdict"]]
     return []
